@@ -63,6 +63,8 @@ REQUIRED_THEOREMS = [
     # round 6: 1->3 quads: orientation / border sides / components; components through 1->6
     "manifold_preserved_quads3", "border_preserved_quads3", "components_preserved_quads3_sub6", "quads3_source",
     "manifold_quads_triangulate_iff", "manifold_preserved_sub6_partial",
+    # round 7: 1->6 at full strength (orientation + border sides)
+    "manifold_preserved_sub6", "border_loops_preserved_quads3_sub6",
 ]
 TRUSTED = [
     "Lean 4.33.0 kernel; axioms ⊆ {propext, Classical.choice, Quot.sound}",
@@ -239,6 +241,7 @@ def run_impl(case, watch=None, mesh=None, editor=None):
                         if watch: watch(i, op, m, "before")
                         res = S.split_edge(m, op[1])
                         if watch: watch(i, op, m, "after")
+                        if case.get("probe_ops"): probe(res, t)      # HISTORY: connectivity queried between two split_edge calls
                     except Exception as e:  # noqa
                         err = (_exc(e), i); break
             elif case["ops"] == [["sdb"]]:
@@ -378,6 +381,27 @@ def conn_check_poly(m):
             if got != want: bad.append(f"vertex_to_vertices({v})={got} want {want}"); break
         for k, e in enumerate(E):
             if len(e) != 2 or c.edge_id(*e) is None or E[c.edge_id(*e)] != e: bad.append(f"edge_id{e}"); break
+        # EVERY answer of edge_id on a small polyline: an edge -> (one of) its index(es), in both argument orders; a pair of
+        # vertices that is not an edge -> None (documented).  vertex_to_edges: exactly the edges containing the vertex.
+        nv = len(m.vertices)
+        if not bad and nv <= 40 and all(len(e) == 2 for e in E):
+            where = {}
+            for k, e in enumerate(E): where.setdefault(keyed(*e), []).append(k)
+            for u in range(nv):
+                for v in range(u + 1, nv):
+                    want = where.get((u, v))
+                    for (a, b) in ((u, v), (v, u)):
+                        got = c.edge_id(a, b)
+                        if (want is None and got is not None) or (want is not None and got not in want):
+                            bad.append(f"edge_id({a},{b})={got} want {want if want is None else want[0]}"); break
+                    if bad: break
+                if bad: break
+            if not bad:
+                for v in range(nv):
+                    want = sorted(k for k, e in enumerate(E) if v in e)
+                    got = c.vertex_to_edges(v)
+                    if got is None or any(g is None for g in got) or sorted(got) != want:
+                        bad.append(f"vertex_to_edges({v})={got} want {want}"); break
     except Exception as e:  # noqa
         bad.append(f"raises {type(e).__name__}: {e}")
     return bad
@@ -1068,6 +1092,7 @@ def classify(case, obs):
     nb = len(all_blocks(case))
     ks.append(f"history:blocks={nb}" + ("+probe-between" if nb > 1 and case.get("probe_between") else ""))
     if nb > 1 and case.get("reuse_editor"): ks.append("history:same-editor-object")
+    if case.get("probe_ops"): ks.append("history:probe-between-split_edge-calls")
     rep = case.get("rep") or {}
     ks.append("rep:coords=" + rep.get("coords", "float")); ks.append("rep:elems=" + rep.get("elems", "list"))
     if any(len(o) > 1 and o[0] in ("loop", "s6") and o[1] == 0 for o in ops): ks.append("param:zero-passes")
@@ -1085,7 +1110,7 @@ def classify(case, obs):
 
 
 def describe(case):
-    d = {k: case[k] for k in ("t", "ops", "blocks", "probe_between", "reuse_editor", "rep", "pre", "tag") if k in case}
+    d = {k: case[k] for k in ("t", "ops", "blocks", "probe_between", "probe_ops", "reuse_editor", "rep", "pre", "tag") if k in case}
     d["nV"] = len(case["V"]); d["n_elems"] = len(case.get("F") or case.get("C") or case.get("E"))
     return d
 
@@ -1195,12 +1220,14 @@ MANIFEST = {
                    "preserves orientation / border sides when the diagonal is not already a side, and always preserves the components."),
     "level_note": ("Trusted: Lean kernel + propext/Classical.choice/Quot.sound; the meaning the body translator gives to the Python "
                    "statements (Model/SubdivSource.lean); the hand-written model of prepare() and of the caller's object (checked "
-                   "against the code on the scenarios of each run only); float rounding not modelled. NOT proved "
-                   "(oracle/correspondence only): border loops / components for operations other than the 1->4 pass, the umbrella "
-                   "condition at vertices (full 2-manifoldness), orientation/border preservation for the quad cut (false in general: "
-                   "open finding) and for 1->3 quads / 1->6, preservation of the counting hypotheses themselves by the operations "
-                   "(so the Euler theorems are per operation, not per sequence, for the set-rebuilding operations), "
-                   "split_double_boundary_edges_triangles (oracle only). Open finding: triangulating a polygon surface that is not a "
+                   "against the code on the scenarios of each run only); float rounding not modelled. Proved in rounds 4-7 beyond the first "
+                   "list: split_double_boundary_edges_triangles (modelled, translated, bridged); orientation, border sides, border loops "
+                   "and components for 1->3 quads and 1->6 on triangle meshes (1->6 under faces-share-at-most-one-edge); components for "
+                   "the fan, triangulate_face, triangulate; the quad cut under 'diagonal not already a side'. NOT proved "
+                   "(oracle/correspondence only): the umbrella condition at vertices (full 2-manifoldness), border loops for the fan / "
+                   "quad cut, preservation of the counting hypotheses themselves by the operations (so the Euler theorems are per "
+                   "operation, not per sequence, for the set-rebuilding operations), prepare() and the caller's object stay "
+                   "hand-modelled. Open finding: triangulating a polygon surface that is not a "
                    "regular complex."),
     "technique": "Lean 4 proofs (induction over face lists / operation sequences, ring identities over Rat) over an executable model; ast-translated tables with rfl bridges; differential scenario correspondence + direct oracle",
 }
